@@ -802,12 +802,6 @@ def b_iscale_axis(W, v):
 def execute(ctx, sc, tag):
     """run the real operation; documented exceptions are checked against their documented condition.
     Returns (ok, result)."""
-    if not ctx.symbolic and compiled_active() and any(has_empty_block(o) for o in sc.operands if is_array(o)):
-        # the compiled contraction kernels crash the interpreter (SIGFPE) on stored blocks with a zero dimension
-        # (finding, see notes/C01.md); the replay of such inputs is done with the Python kernels only
-        ctx.note('skipped_compiled_empty_block')
-        ctx.prove(True, 'skipped under the compiled extension')
-        return False, None
     try:
         res = sc.call(*sc.operands)
     except Exception as e:  # noqa
@@ -871,6 +865,32 @@ def install_faithful_blas():
             return f
 
     N.BLAS = FaithfulBLAS
+
+
+def install_npc_facade():
+    """the generic facade widens ``np.array(x, dtype=np.intp)`` to object when x holds symbolic values; in np_conserved the
+    only such call is the all-integers test of ``_pre_indexing`` where numpy's own conversion (``__index__`` of the bounded
+    symbolic index, TypeError for slices / lists) is the behaviour to keep"""
+    from symx import stubs
+    N = Bd.npc()
+
+    class NpcFacade(stubs.NumpyFacade):
+
+        def array(self, x, dtype=None, **kw):
+            if dtype is not None and dtype is not object and np.dtype(dtype).kind in 'iu':
+                return np.array(x, dtype=dtype, **kw)
+            return stubs.NumpyFacade.array(self, x, dtype, **kw)
+
+    N.np = NpcFacade(widen=False)
+
+
+def setup_symbolic(tier):
+    if tier == 'A':
+        Bd.setup_symbolic_tierA()
+    else:
+        Bd.setup_symbolic_tierB()
+    install_faithful_blas()
+    install_npc_facade()
 
 
 def mod_equal(ctx, x, y, ch):
@@ -981,7 +1001,7 @@ def _combine_oracle(a, groups, new_axes, pipe_specs, ch, labels):
             out[o] = da[idx]
         return out
 
-    return oracle, out_labels, leg_q, maps, src_axes
+    return oracle, out_labels, leg_q, maps, [kind == 'pipe' for kind, x, ps in slots]
 
 
 @op('combine_legs', variants=('all', 'pair', 'perm', 'new_axes', 'two', 'single', 'given_pipe', 'qconj'), chain=True,
@@ -1023,8 +1043,16 @@ def b_combine_legs(W, v):
         kw['pipes'] = pipe
         specs = [(+1, False)]
         extra = [pipe]
-    oracle, labels, leg_q, _, _ = _combine_oracle(a, groups, new_axes, specs, W.ch, la)
-    return Sc([a], lambda a: a.combine_legs(arg, **kw), oracle, labels=labels, qtotal=a.qtotal, leg_q=leg_q, extra_live=extra)
+    oracle, labels, leg_q, _, is_pipe = _combine_oracle(a, groups, new_axes, specs, W.ch, la)
+
+    def post(ctx, res, tag):
+        got = res.get_leg_labels()
+        ctx.prove(len(got) == len(labels) and all(g == w for g, w, p in zip(got, labels, is_pipe) if p),
+                  f'{tag}: labels of the new pipes follow the documented rule')
+        ctx.prove(len(got) == len(labels) and all(g == w for g, w, p in zip(got, labels, is_pipe) if not p),
+                  f'{tag}: labels of the legs that are not combined are inherited')
+
+    return Sc([a], lambda a: a.combine_legs(arg, **kw), oracle, labels=None, qtotal=a.qtotal, leg_q=leg_q, extra_live=extra, post=post)
 
 
 @op('split_legs', variants=('first', 'all', 'unsorted', 'two', 'cutoff'), quick=('first', 'unsorted'),
@@ -1098,10 +1126,10 @@ def _sorted_rows(ctx, rows):
 
 
 # ---------------------------------------------------------------- slicing / indexing
-def _sym_index(W, name, n, oob=True):
+def _sym_index(W, name, n, oob=True, neg=True):
     """index with a bounded symbolic value; out-of-range values included when oob (IndexError documented)"""
     if W.tier == 'A' or n <= 3:
-        return W.ctx.int(W.ns + name, -n - 1 if oob else -n, n if oob else n - 1)
+        return W.ctx.int(W.ns + name, (-n - 1 if oob else -n) if neg else 0, n if oob else n - 1)
     rng = W.rng('idx:' + name)
     return rng.randrange(-n, n)
 
@@ -1232,7 +1260,7 @@ def b_getitem(W, v):
     a = W.first()
     r = a.rank
     if v == 'ints':
-        idx = tuple(_sym_index(W, f'i{k}', a.shape[k]) for k in range(r))
+        idx = tuple(_sym_index(W, f'i{k}', a.shape[k], oob=(k == 0), neg=(k == 0)) for k in range(r))
         ok = True
         for i, n in zip(idx, a.shape):
             ok = ok & _in_range(i, n)
@@ -1256,7 +1284,9 @@ def b_setitem(W, v):
     a = W.first()
     r = a.rank
     if v == 'ints':
-        idx = tuple(_sym_index(W, f'i{k}', a.shape[k], oob=False) for k in range(r))
+        # concretised (one path per value): with symbolic index objects the position array of __setitem__ becomes an
+        # object array and so would the _qdata row inserted by get_block(insert=True) -- an artefact of the embedding
+        idx = tuple(int(_sym_index(W, f'i{k}', a.shape[k], oob=False, neg=(k == r - 1))) for k in range(r))
         val = W.scalar('val')
         # documented (get_block): IndexError if the position is not compatible with the charges
         q = np.array(a.qtotal)
@@ -1315,7 +1345,7 @@ def b_iproject(W, v):
 
     def mk(ax, name):
         n = a.shape[ax]
-        if W.tier == 'A' or n <= 3:
+        if (W.tier == 'A' or n <= 3) and name == 'm':
             return np.array([W.ctx.flag(W.ns + f'{name}{k}') for k in range(n)], dtype=bool)
         return np.array([rng.random() < 0.6 for _ in range(n)], dtype=bool)
 
@@ -1495,7 +1525,8 @@ def b_concatenate(W, v):
     ax = 0 if v in ('axis0', 'three', 'nocopy') else r - 1
     others = []
     for k in range(2 if v == 'three' else 1):
-        x = W.xleg(f'cx{k}', qconj=(-a.legs[ax].qconj if v == 'last_conj' else a.legs[ax].qconj))
+        x = W.new_leg(f'cx{k}', [2] if W.tier == 'A' else W.small_sizes(f'cx{k}'),
+                      -a.legs[ax].qconj if v == 'last_conj' else a.legs[ax].qconj)
         legs = list(a.legs)
         legs[ax] = x
         others.append(W.tensor(f'b{k}', legs, labels=[None] * r, qtotal=a.qtotal))
@@ -1510,8 +1541,9 @@ def b_concatenate(W, v):
 @op('grid_concat', variants=('full', 'none_entry'), quick=('none_entry', ), labels='labels of the first entry', qtotal='common qtotal')
 def b_grid_concat(W, v):
     N = W.npc
-    r0, r1 = W.leg(0), W.xleg('gr1', qconj=W.leg(0).qconj)
-    c0, c1 = W.leg(1), W.xleg('gc1', qconj=W.leg(1).qconj)
+    one = [1] if W.tier == 'A' else None
+    r0, r1 = W.leg(0), W.new_leg('gr1', one or W.small_sizes('gr1'), W.leg(0).qconj)
+    c0, c1 = W.leg(1), W.new_leg('gc1', one or W.small_sizes('gc1'), W.leg(1).qconj)
     A = W.tensor('a', [r0, c0], labels=['r', 'c'])
     qt = A.qtotal
     B = W.tensor('b', [r0, c1], labels=['r', 'c'], qtotal=qt)
@@ -1535,8 +1567,8 @@ def b_grid_concat(W, v):
 def b_grid_outer(W, v):
     N = W.npc
     ch = W.ch
-    g = W.new_leg('g', [1, 1, 1], 1 if W.rng('go').random() < 0.5 else -1)
-    l0, l1 = W.leg(0), W.leg(1)
+    g = W.new_leg('g', [1, 1, 1] if W.tier == 'B' else [1, 2], 1 if W.rng('go').random() < 0.5 else -1)
+    l0, l1 = W.leg(0), (W.leg(1) if W.tier == 'B' else W.new_leg('go1', [2], -1))
     if W.tier == 'A':
         qt = Bd.qvec(W.ctx, W.ns + 'goqt', ch)
     else:
@@ -1887,8 +1919,8 @@ def b_norm(W, v):
     N = W.npc
     a = W.first()
     ctx = W.ctx
-    if a.size > 6 and ctx.symbolic and v != 'two':
-        raise Skip()  # abs() of every entry forks on the sign
+    if ctx.symbolic and v != 'two' and (W.tier == 'A' or W.cplx or a.size > 3):
+        raise Skip()  # abs() of a real entry forks on the sign, of a complex entry needs a sqrt variable: small real tensors only
 
     def oracle(da):
         flat = list(da.reshape(-1))
@@ -1910,3 +1942,338 @@ def b_norm(W, v):
     if v == 'two':
         sc.norm2 = True
     return sc
+
+
+# =============================================================================================
+# C02: representation invariant, written with own formulas (not via tenpy's test_sanity / is_sorted / is_bunched)
+def check_leg(ctx, leg, ch, tag):
+    N = Bd.npc()
+    sl = leg.slices
+    nb = leg.charges.shape[0]
+    ok = (sl.ndim == 1 and len(sl) == nb + 1 and int(sl[0]) == 0 and all(int(sl[i]) <= int(sl[i + 1]) for i in range(nb))
+          and int(sl[-1]) == leg.ind_len and leg.block_number == nb and leg.charges.ndim == 2 and leg.charges.shape[1] == ch.qnumber
+          and leg.qconj in (1, -1))
+    ctx.prove(bool(ok), f'{tag}: leg slices / block_number / qconj consistent')
+    if not ok:
+        return
+    ctx.prove(leg.chinfo == ch, f'{tag}: leg has the ChargeInfo of the tensor')
+    for j, m in enumerate(ch.mod):
+        if int(m) != 1:
+            for v in leg.charges[:, j]:
+                ctx.prove((v >= 0) & (v < int(m)), f'{tag}: leg charges valid modulo')
+    if leg.sorted and nb > 1:
+        ctx.prove(Bd.lex_nondecreasing(ctx, leg.charges), f'{tag}: leg.sorted flag truthful')
+    if leg.bunched and nb > 1:
+        ctx.prove(Bd.rows_differ(ctx, leg.charges), f'{tag}: leg.bunched flag truthful')
+    if isinstance(leg, N.LegPipe):
+        check_pipe(ctx, leg, ch, tag)
+
+
+def check_pipe(ctx, pipe, ch, tag):
+    """q_map consistent with the incoming legs: every combination of incoming blocks exactly once, sizes are products,
+    the rows belonging to one outgoing block tile it contiguously, fused charge of every row == charge of its outgoing block"""
+    qm = pipe.q_map
+    legs = pipe.legs
+    n = len(legs)
+    combos = sorted(itertools.product(*[range(l.charges.shape[0]) for l in legs]))
+    ok = qm.shape == (len(combos), 3 + n) and sorted(tuple(int(x) for x in row[3:]) for row in qm) == combos
+    ctx.prove(bool(ok), f'{tag}: pipe.q_map lists every combination of incoming blocks once')
+    if not ok:
+        return
+    ok = pipe.ind_len == int(np.prod([l.ind_len for l in legs])) and tuple(pipe.subshape) == tuple(l.ind_len for l in legs)
+    fill = {}
+    prev = -1
+    for j, row in enumerate(qm):
+        b, e, Q = int(row[0]), int(row[1]), int(row[2])
+        size = int(np.prod([int(l.slices[k + 1] - l.slices[k]) for l, k in zip(legs, row[3:])]))
+        ok = ok and e - b == size and 0 <= Q < pipe.block_number and Q >= prev and b == fill.get(Q, 0)
+        fill[Q] = e
+        prev = Q
+        fused = sum(l.charges[int(k)] * (l.qconj * pipe.qconj) for l, k in zip(legs, row[3:]))
+        if ok:
+            ctx.prove(mod_equal(ctx, fused, pipe.charges[Q], ch), f'{tag}: pipe fusion rule for every q_map row')
+    for Q in range(pipe.block_number):
+        ok = ok and fill.get(Q, 0) == int(pipe.slices[Q + 1] - pipe.slices[Q])
+    qs = pipe.q_map_slices
+    ok = ok and len(qs) == pipe.block_number + 1 and all(
+        all(int(qm[j, 2]) == Q for j in range(int(qs[Q]), int(qs[Q + 1]))) for Q in range(pipe.block_number)) and int(qs[-1]) == len(qm)
+    ctx.prove(bool(ok), f'{tag}: pipe.q_map slices / sizes / q_map_slices consistent')
+
+
+def check_invariants(ctx, A, tag, sanity=True):
+    """the representation invariant of C02 for one Array"""
+    ch = A.chinfo
+    r = len(A.legs)
+    ok = r >= 1 and A.rank == r and tuple(A.shape) == tuple(l.ind_len for l in A.legs)
+    ctx.prove(bool(ok), f'{tag}: rank / shape match the legs')
+    for l in A.legs:
+        check_leg(ctx, l, ch, tag)
+    n = len(A._data)
+    qd = A._qdata
+    ok = isinstance(qd, np.ndarray) and qd.shape == (n, r) and qd.dtype == np.intp
+    ctx.prove(bool(ok), f'{tag}: _qdata is an intp array of shape (stored_blocks, rank)')
+    if not ok:
+        return
+    ctx.prove(bool(qd.flags['C_CONTIGUOUS']), f'{tag}: _qdata is C-contiguous (storage schema, demanded by test_sanity)')
+    ok = all(0 <= int(qd[i, k]) < A.legs[k].block_number for i in range(n) for k in range(r))
+    ctx.prove(bool(ok), f'{tag}: _qdata entries are valid block indices')
+    if not ok:
+        return
+    rows = [tuple(int(x) for x in row) for row in qd]
+    ctx.prove(len(set(rows)) == n, f'{tag}: at most one stored block per combination of charge blocks')
+    if A._qdata_sorted:
+        keys = [row[::-1] for row in rows]
+        ctx.prove(keys == sorted(keys), f'{tag}: _qdata_sorted flag truthful')
+    shape_ok = True
+    for row, t in zip(rows, A._data):
+        want = tuple(int(l.slices[k + 1] - l.slices[k]) for l, k in zip(A.legs, row))
+        shape_ok = shape_ok and isinstance(t, np.ndarray) and t.shape == want and (ctx.symbolic or t.dtype == A.dtype)
+    ctx.prove(bool(shape_ok), f'{tag}: block shapes / dtype match the legs')
+    # total charge
+    qt = A.qtotal
+    ok = isinstance(qt, np.ndarray) and qt.shape == (ch.qnumber, )
+    ctx.prove(bool(ok), f'{tag}: qtotal has one entry per charge')
+    if ok:
+        for j, m in enumerate(ch.mod):
+            if int(m) != 1:
+                ctx.prove((qt[j] >= 0) & (qt[j] < int(m)), f'{tag}: qtotal valid modulo')
+        for row in rows:
+            q = sum(l.charges[k] * l.qconj for l, k in zip(A.legs, row))
+            ctx.prove(mod_equal(ctx, q, qt, ch), f'{tag}: charge rule for every stored block')
+    labs = A._labels
+    ok = isinstance(labs, list) and len(labs) == r and all(l is None or isinstance(l, str) for l in labs)
+    named = [l for l in labs if l is not None] if ok else []
+    ctx.prove(bool(ok) and len(set(named)) == len(named), f'{tag}: one (unique or None) label per leg')
+    if sanity:
+        from tenpy.tools import optimization
+        try:
+            with optimization.temporary_level(0):
+                A.test_sanity()
+        except Exception as e:  # noqa
+            if type(e).__name__ in ('SymLeak', 'RecursionError'):
+                raise
+            msg = ''.join(c for c in str(e)[:28] if c.isalpha() or c == ' ').strip()
+            ctx.fail(f'{tag}: own test_sanity passes at optimization level 0 ({type(e).__name__} {msg})', str(e)[:160])
+
+
+# ---------------------------------------------------------------- flag consumers (2-step histories)
+def consumers(ctx, W, R, tag, which=('add', 'radd', 'tensordot', 'inner', 'sort_legcharge', 'legsort')):
+    """operations that trust the cached claims (_qdata_sorted, leg.sorted, leg.bunched) applied to R;
+    the result is compared with numpy on the dense form of R (which does not depend on any flag)"""
+    N = W.npc
+    dR = np.array(R.to_ndarray())
+    r = R.rank
+    ch = R.chinfo
+    Wz = World(ctx, dict(W.struct, mods=[int(m) for m in ch.mod]), cplx=W.cplx, subset='all', ns=W.ns + 'z')
+
+    def guard(name, f):
+        if has_empty_block(R):
+            ctx.note('consumer_on_empty_blocks')
+        try:
+            f()
+        except Exception as e:  # noqa
+            if type(e).__name__ in ('SymLeak', 'RecursionError'):
+                raise
+            msg = ''.join(c for c in str(e)[:28] if c.isalpha() or c == ' ').strip()
+            ctx.fail(f'{tag} then {name}: unexpected {type(e).__name__} ({msg})', str(e)[:160])
+
+    if 'add' in which or 'radd' in which:
+        F = Wz.tensor('f', list(R.legs), labels=R.get_leg_labels(), qtotal=R.qtotal)
+        dF = np.array(F.to_ndarray())
+        if 'add' in which:
+            guard('+', lambda: ctx.prove_eq((R + F).to_ndarray(), dR + dF, f'{tag} then R + F: dense == numpy'))
+        if 'radd' in which:
+            guard('F +', lambda: ctx.prove_eq((F + R).to_ndarray(), dF + dR, f'{tag} then F + R: dense == numpy'))
+    if 'tensordot' in which and r >= 2:
+        G = Wz.tensor('g', [R.legs[0].conj()], labels=['zz'])
+        dG = np.array(G.to_ndarray())
+        guard('tensordot', lambda: ctx.prove_eq(N.tensordot(G, R, axes=1).to_ndarray(), np.tensordot(dG, dR, axes=1),
+                                                f'{tag} then tensordot(G, R): dense == numpy'))
+        G2 = Wz.tensor('h', [R.legs[-1].conj()], labels=['zz'])
+        dG2 = np.array(G2.to_ndarray())
+        guard('tensordot', lambda: ctx.prove_eq(N.tensordot(R, G2, axes=1).to_ndarray(), np.tensordot(dR, dG2, axes=1),
+                                                f'{tag} then tensordot(R, G): dense == numpy'))
+    if 'inner' in which:
+        H = Wz.tensor('k', [l.conj() for l in R.legs], labels=None, qtotal=ch.make_valid(np.array(-R.qtotal)))
+        dH = np.array(H.to_ndarray())
+        guard('inner', lambda: ctx.prove_eq(np.asarray(N.inner(R, H, axes='range'), dtype=object if ctx.symbolic else None).reshape(()),
+                                            np.asarray(np.sum(dR * dH)).reshape(()), f'{tag} then inner(R, H): value == numpy'))
+    if 'sort_legcharge' in which:
+
+        def f():
+            perm, S = R.sort_legcharge()
+            ctx.prove_eq(S.to_ndarray(), dR[np.ix_(*[np.asarray(p, dtype=np.intp) for p in perm])],
+                         f'{tag} then sort_legcharge: dense == permuted operand')
+            for l in S.legs:
+                ctx.prove(Bd.lex_nondecreasing(ctx, l.charges) & Bd.rows_differ(ctx, l.charges),
+                          f'{tag} then sort_legcharge: legs blocked')
+            check_invariants(ctx, S, f'{tag} then sort_legcharge', sanity=False)
+
+        guard('sort_legcharge', f)
+    if 'legsort' in which:
+
+        def f():
+            for l in R.legs:
+                if type(l) is not N.LegCharge:
+                    continue
+                _, ls = l.sort(bunch=False)
+                ctx.prove(Bd.lex_nondecreasing(ctx, ls.charges), f'{tag} then LegCharge.sort: sorted')
+                _, lb = l.bunch()
+                ctx.prove(Bd.rows_differ(ctx, lb.charges), f'{tag} then LegCharge.bunch: bunched')
+                ctx.prove(bool(l.is_blocked()) == _distinct(ctx, l.charges), f'{tag} then LegCharge.is_blocked: truthful')
+
+        guard('LegCharge.sort/bunch', f)
+
+
+def _distinct(ctx, rows):
+    rows = [r for r in rows]
+    for i in range(len(rows)):
+        for j in range(i + 1, len(rows)):
+            if all(bool(x == y) for x, y in zip(rows[i], rows[j])):
+                return False
+    return True
+
+
+# =============================================================================================
+# C03: fingerprints of live objects and writes through a result
+def leg_snapshot(l):
+    N = Bd.npc()
+    s = dict(obj=l, slices=np.array(l.slices), charges=np.array(l.charges), qconj=l.qconj, sorted=l.sorted, bunched=l.bunched,
+             ind_len=l.ind_len, block_number=l.block_number, chinfo=l.chinfo, slices_obj=l.slices, charges_obj=l.charges)
+    if isinstance(l, N.LegPipe):
+        s.update(q_map=np.array(l.q_map), q_map_slices=np.array(l.q_map_slices), sub=tuple(l.legs), subshape=tuple(l.subshape),
+                 subqshape=tuple(l.subqshape), perm=None if l._perm is None else np.array(l._perm), strides=np.array(l._strides))
+    return s
+
+
+def collect_legs(arrays, extra=()):
+    """every LegCharge / LegPipe reachable from the given arrays and legs (pipes recursively), by identity"""
+    N = Bd.npc()
+    seen, out = set(), []
+
+    def add(l):
+        if id(l) in seen or not isinstance(l, N.LegCharge):
+            return
+        seen.add(id(l))
+        out.append(l)
+        if isinstance(l, N.LegPipe):
+            for s in l.legs:
+                add(s)
+
+    for a in arrays:
+        if is_array(a):
+            for l in a.legs:
+                add(l)
+    for l in extra:
+        add(l)
+    return out
+
+
+def compare_leg(ctx, snap, tag):
+    l = snap['obj']
+    ok = (np.array_equal(l.slices, snap['slices']) and l.qconj == snap['qconj'] and l.sorted == snap['sorted'] and l.bunched == snap['bunched']
+          and l.ind_len == snap['ind_len'] and l.block_number == snap['block_number'] and l.chinfo is snap['chinfo']
+          and l.charges.shape == snap['charges'].shape)
+    if 'q_map' in snap:
+        ok = (ok and np.array_equal(l.q_map, snap['q_map']) and np.array_equal(l.q_map_slices, snap['q_map_slices'])
+              and len(l.legs) == len(snap['sub']) and all(x is y for x, y in zip(l.legs, snap['sub'])) and tuple(l.subshape) == snap['subshape']
+              and tuple(l.subqshape) == snap['subqshape'] and np.array_equal(l._strides, snap['strides'])
+              and ((l._perm is None) == (snap['perm'] is None)) and (l._perm is None or np.array_equal(l._perm, snap['perm'])))
+    ctx.prove(bool(ok), f'{tag}: shared LegCharge objects are not mutated (structure / flags)')
+    if ok and l.charges.size:
+        ok = ctx.prove_eq(l.charges, snap['charges'], f'{tag}: shared LegCharge objects are not mutated (charges)')
+    return bool(ok)
+
+
+def array_snapshot(a):
+    return dict(obj=a, dense=np.array(a.to_ndarray()), qtotal=np.array(a.qtotal), labels=list(a._labels), legs=list(a.legs), shape=tuple(a.shape),
+                rank=a.rank, chinfo=a.chinfo, dtype=a.dtype)
+
+
+def compare_array(ctx, snap, tag):
+    a = snap['obj']
+    ok = (a._labels == snap['labels'] and len(a.legs) == len(snap['legs']) and all(x is y for x, y in zip(a.legs, snap['legs']))
+          and tuple(a.shape) == snap['shape'] and a.rank == snap['rank'] and a.chinfo is snap['chinfo'] and a.dtype == snap['dtype']
+          and np.shape(a.qtotal) == snap['qtotal'].shape)
+    ctx.prove(bool(ok), f'{tag}: labels / legs / shape / dtype unchanged')
+    if not ok:
+        return False
+    if snap['qtotal'].size:
+        ok = ctx.prove_eq(np.asarray(a.qtotal), snap['qtotal'], f'{tag}: qtotal unchanged')
+    return bool(ctx.prove_eq(a.to_ndarray(), snap['dense'], f'{tag}: values unchanged')) and bool(ok)
+
+
+def _first_positions(ctx, R, W):
+    """(position inside a stored block, position inside an allowed block that is not stored) or None"""
+    stored = {tuple(int(x) for x in row) for row in R._qdata}
+    inside = None
+    for row, t in zip(R._qdata, R._data):
+        if t.size:
+            inside = tuple(int(l.slices[k]) for l, k in zip(R.legs, row))
+            break
+    outside = None
+    ch = R.chinfo
+    for qi in itertools.product(*[range(l.block_number) for l in R.legs]):
+        if qi in stored or any(int(l.slices[k + 1] - l.slices[k]) == 0 for l, k in zip(R.legs, qi)):
+            continue
+        q = sum(l.charges[k] * l.qconj for l, k in zip(R.legs, qi))
+        if bool(mod_equal(ctx, q, R.qtotal, ch)):
+            outside = tuple(int(l.slices[k]) for l, k in zip(R.legs, qi))
+            break
+    return inside, outside
+
+
+WRITES = ('setitem_stored', 'setitem_new', 'setitem_slice', 'iscale_prefactor', 'iscale_axis', 'itranspose', 'iswapaxes', 'iconj',
+          'labels', 'iproject', 'iadd')
+
+
+def write_through(ctx, W, R, tag, check, writes=WRITES):
+    """in-place operations on R; after each one `check(what)` re-compares every other live object"""
+    inside, outside = _first_positions(ctx, R, W)
+    r = R.rank
+
+    def idx(p):
+        return p if r > 1 else p[0]
+
+    def val(name):  # results with a numeric dtype (eye_like, zeros ...) cannot hold symbols
+        return ctx.num(W.ns + name, W.cplx) if (not ctx.symbolic or R.dtype == object) else 7.5
+
+    for w in writes:
+        try:
+            if w == 'setitem_stored' and inside is not None:
+                R[idx(inside)] = val('w1')
+            elif w == 'setitem_new' and outside is not None:
+                R[idx(outside)] = val('w2')
+            elif w == 'setitem_slice' and R.shape[0] > 0:
+                part = R[0:1] if r > 1 else None
+                if part is None:
+                    continue
+                R[0:1] = part * 3.
+            elif w == 'iscale_prefactor':
+                R.iscale_prefactor(2.)
+            elif w == 'iscale_axis':
+                R.iscale_axis(np.arange(1., R.shape[-1] + 1.), -1)
+            elif w == 'itranspose' and r > 1:
+                R.itranspose()
+            elif w == 'iswapaxes' and r > 1:
+                R.iswapaxes(0, r - 1)
+            elif w == 'iconj':
+                R.iconj()
+            elif w == 'labels':
+                R.iset_leg_labels([f'w{k}' for k in range(r)])
+                R.ireplace_label('w0', 'ww')
+            elif w == 'iproject' and R.shape[0] > 1:
+                m = np.ones(R.shape[0], dtype=bool)
+                m[-1] = False
+                R.iproject(m, 0)
+            elif w == 'iadd':
+                R += R.copy(deep=True)
+            else:
+                continue
+        except Exception as e:  # noqa
+            if type(e).__name__ in ('SymLeak', 'RecursionError'):
+                raise
+            ctx.note('write_raised_' + w)  # failures of the write itself belong to C01 / C02
+            continue
+        ctx.note('writes_through_result')
+        check(f'{tag}, then {w} on the result')
